@@ -761,6 +761,26 @@ func main() {
 			trouble("replay needs a file")
 		}
 		os.Exit(replayCmd(os.Args[2]))
+	case "debug":
+		// vrun debug <property> <scenario> <from> <to> [gomaxprocs]: print full logs of runs
+		if len(os.Args) < 6 {
+			trouble("usage: debug <property> <scenario> <from> <to> [gomaxprocs]")
+		}
+		b := build("debug", false)
+		defer os.RemoveAll(b.dir)
+		from, _ := strconv.ParseUint(os.Args[4], 10, 64)
+		to, _ := strconv.ParseUint(os.Args[5], 10, 64)
+		g := 2
+		if len(os.Args) > 6 {
+			g, _ = strconv.Atoi(os.Args[6])
+		}
+		job := &Job{Mode: "hashes", Property: os.Args[2], Tier: "quick", Seed: envSeed(), Scenarios: []ScenarioRange{{os.Args[3], from, to}}, Out: filepath.Join(b.dir, "dbg.json"), ReplayDir: b.dir}
+		_, err := runWorker(b.bin, job, g, "VSIM_DEBUG=2")
+		data, _ := os.ReadFile(job.Out + ".log")
+		os.Stdout.Write(data)
+		if err != nil {
+			trouble("%v", err)
+		}
 	case "selftest":
 		if len(os.Args) >= 3 && os.Args[2] == "determinism" {
 			os.Exit(selftestDeterminism(os.Args[3:]))
